@@ -31,7 +31,7 @@ ASSUMPTIONS = ["any best operation under the rule's criterion is accepted (no ti
 def generate(seed, tier):
     rng = stream(seed, "c04")
     big = tier == "thorough" and rng.random() < 0.15
-    spec = gen_instance(rng, sparse_ids=0.03, large=0.008, max_jobs=6 if big else 4, max_machines=5 if big else 4, max_ops=5 if big else 4)
+    spec = gen_instance(rng, huge=0.05, sparse_ids=0.03, large=0.008, max_jobs=6 if big else 4, max_machines=5 if big else 4, max_ops=5 if big else 4)
     r = rng.random()
     if r < 0.45:
         rule = {"kind": "builtin", "name": rng.choice(RULES), "how": rng.choice(["str", "enum", "callable", "upper"])}
@@ -235,7 +235,8 @@ def criterion_ok(ctx, cfg, side, sel, av, scores_before):
 
 
 def eval_scores(cfg, side, scorers):
-    return [[float(x) for x in f(side.disp)] for f in scorers]
+    # exact Python numbers: ints stay ints (a float() detour would merge scores that differ beyond 2**53)
+    return [[x.item() if hasattr(x, "item") else x for x in f(side.disp)] for f in scorers]
 
 
 def execute_step(case, ctx):
@@ -331,12 +332,16 @@ def execute_step(case, ctx):
             if not any(sel is o for o in av):
                 ctx.fail("selected_is_available", f"rule {rule} selected {getattr(sel, 'job_id', '?')},{getattr(sel, 'position_in_job', '?')} which is not among available {[(o.job_id, o.position_in_job) for o in av]}", rule=rule["kind"])
             ok, why = criterion_ok(ctx, cfg, side, sel, av, scores)
+            # job work beyond 2**24 is not exactly representable in the float32 feature matrices (known finding F17)
+            inexact = any(sum(dd for _, dd in job) >= (1 << 24) for job in m.jobs)
             if not ok:
-                ctx.fail("selected_is_best", f"rule {rule.get('name') or rule}: selected ({sel.job_id},{sel.position_in_job}) has {why}; state nxt={m.nxt}", rule=rule.get("name") or rule["kind"])
+                ctx.fail("selected_is_best", f"rule {rule.get('name') or rule}: selected ({sel.job_id},{sel.position_in_job}) has {why}; state nxt={m.nxt}", rule=rule.get("name") or rule["kind"],
+                         float32_inexact=inexact)
             if rule["kind"] == "mwkr_pair":
                 direct = r.most_work_remaining_rule(d)
                 if direct is not sel:
-                    ctx.fail("direct_equals_observer_based_mwkr", f"direct MWKR selects ({direct.job_id},{direct.position_in_job}), observer-based selects ({sel.job_id},{sel.position_in_job}); state nxt={m.nxt}")
+                    ctx.fail("direct_equals_observer_based_mwkr", f"direct MWKR selects ({direct.job_id},{direct.position_in_job}), observer-based selects ({sel.job_id},{sel.position_in_job}); state nxt={m.nxt}",
+                             float32_inexact=inexact)
                 ctx.probe("mwkr_pair_compared")
         # ---- the step itself
         before = list(d.job_next_operation_index)
